@@ -20,6 +20,7 @@ type C11Case struct {
 	Edit   string    `json:",omitempty"`
 	Gen    string    `json:",omitempty"` // generated guard-violating stream id
 	Data   []byte    `json:",omitempty"` // literal input (small raw cases)
+	Src    int       `json:",omitempty"` // kind of source the reader is given (sourceOf in envkinds.go)
 }
 
 func init() {
@@ -125,14 +126,14 @@ func c11Judge(r *core.Run, p C11Case, data []byte) {
 	var pan *core.PanicInfo
 	switch p.Fmt {
 	case "xz":
-		out, err, proto, pan = c11Decode("xz", data)
+		out, err, proto, pan = c11Decode("xz", data, p.Src)
 	case "lzma2":
-		out, err, proto, pan = c11Decode("lzma2", data)
+		out, err, proto, pan = c11Decode("lzma2", data, p.Src)
 	default:
-		out, err, proto, pan = c11Decode("lzma", data)
+		out, err, proto, pan = c11Decode("lzma", data, p.Src)
 	}
 	r.End(id)
-	desc := fmt.Sprintf("%s reader on %d bytes: base=%q prefix=%d tail=%x muts=%v edit=%q gen=%q", p.Fmt, len(data), p.Base, p.Prefix, p.Tail, p.Muts, p.Edit, p.Gen)
+	desc := fmt.Sprintf("%s reader on %d bytes: base=%q prefix=%d tail=%x muts=%v edit=%q gen=%q source=%s", p.Fmt, len(data), p.Base, p.Prefix, p.Tail, p.Muts, p.Edit, p.Gen, sourceKindNames[p.Src])
 	cls := errClass(err)
 	switch {
 	case pan != nil:
@@ -147,9 +148,13 @@ func c11Judge(r *core.Run, p C11Case, data []byte) {
 	r.Nontrivial(core.Hash(p.Fmt, cls, len(out)))
 }
 
-func c11Decode(format string, data []byte) (out []byte, err error, proto string, pan *core.PanicInfo) {
+func c11Decode(format string, data []byte, src ...int) (out []byte, err error, proto string, pan *core.PanicInfo) {
+	sk := 0
+	if len(src) > 0 {
+		sk = src[0]
+	}
 	pan = core.Guard(func() {
-		rd, e := openReader(format, bytes.NewReader(data))
+		rd, e := openReader(format, sourceOf(sk, data))
 		if e != nil {
 			err = e
 			return
@@ -250,7 +255,7 @@ func c11Gen() map[string][]byte {
 func runC11(r *core.Run) {
 	bindRef(r)
 	th := thorough(r)
-	r.Rule = "bounded-exhaustive analogue of 'arbitrary input': (a) EVERY byte string of length <=2 and every string over {00,01,7F,80,FF,FD,21} of length <=4, raw and appended to every structural prefix of valid streams, for all three readers; (b) per base stream: every single-byte substitution with all 255 other values, every pair of substitutions inside the header regions with a 6-value menu, every deletion / insertion / truncation, boundary values written into every 2-/4-/8-byte field position; (c) every field-level edit of the structural mutator with CRC32s re-sealed; (d) generated operation sequences with one format guard violated (distance beyond the window, first op a match/rep, EOS in the middle, size field off by k) in LZMA2, .xz and .lzma (three modes). Oracle: no panic, n<=len(p), <=64 consecutive (0,nil), output cap 64 MiB, 30 s watchdog. non-trivial = distinct (format, outcome class, bytes delivered)"
+	r.Rule = "bounded-exhaustive analogue of 'arbitrary input': (a) EVERY byte string of length <=2 and every string over {00,01,7F,80,FF,FD,21} of length <=4, raw and appended to every structural prefix of valid streams (plus runs of 4..9 bytes 00 / FF; the tails of length <=1 and the runs also through bufio sources with 16-byte / default buffer and a source delivering data together with io.EOF), for all three readers; (b) per base stream: every single-byte substitution with all 255 other values, every pair of substitutions inside the header regions with a 6-value menu, every deletion / insertion / truncation, boundary values written into every 2-/4-/8-byte field position; (c) every field-level edit of the structural mutator with CRC32s re-sealed; (d) generated operation sequences with one format guard violated (distance beyond the window, first op a match/rep, EOS in the middle, size field off by k) in LZMA2, .xz and .lzma (three modes). Oracle: no panic, n<=len(p), <=64 consecutive (0,nil), output cap 64 MiB, 30 s watchdog. non-trivial = distinct (format, outcome class, bytes delivered)"
 	bases := c11Bases()
 	var cases []C11Case
 	// (a) short strings
@@ -293,6 +298,10 @@ func runC11(r *core.Run) {
 			}
 		}
 	}
+	// runs of 4..9 zero bytes (one or two words of stream padding plus a rest) and of 0xFF
+	for k := 4; k <= 9; k++ {
+		tails = append(tails, make([]byte, k), bytes.Repeat([]byte{0xFF}, k))
+	}
 	names := []string{"lib-xz-3blocks-crc32", "ref-xz-allchunks-crc32-sizes", "lib-lzma2-raw+lzma", "ref-lzma2-allchunks", "lib-lzma-eos", "lib-lzma-size", "lib-lzma-size0", "lib-lzma-size0+eos"}
 	for _, nm := range names {
 		s := bases[nm]
@@ -306,6 +315,13 @@ func runC11(r *core.Run) {
 			prev = site
 			for _, t := range tails {
 				cases = append(cases, C11Case{Fmt: s.Fmt, Base: nm, Prefix: k, Tail: t})
+				if len(t) <= 1 || (len(t) >= 3 && bytes.Count(t, t[:1]) == len(t)) {
+					// also through buffered sources (Peek / Discard / Buffered) and with data delivered
+					// together with io.EOF
+					for _, sk := range []int{1, 2, 5} {
+						cases = append(cases, C11Case{Fmt: s.Fmt, Base: nm, Prefix: k, Tail: t, Src: sk})
+					}
+				}
 			}
 		}
 	}
